@@ -157,3 +157,16 @@ Section Model.
     - eapply conv_adj_false_unit. exact Ea.
   Qed.
 End Model.
+
+(* ------------------------------------------------------------------ non-vacuity of the hypotheses *)
+Example ex_full_hyps :
+  adj_ok (length ex_g) ex_g = true /\ rows_nodup ex_g = true /\
+  (forall v a, In a (get [] ex_g v) -> snd a = 1) /\
+  exists bet, bc_core false false ex_g = Some bet /\ get 0 bet 1%nat == 1.
+Proof.
+  split; [reflexivity|]. split; [reflexivity|]. split.
+  - intros v a H. unfold ex_g, get in H.
+    do 6 (destruct v as [|v]; [cbn in H; repeat (destruct H as [H|H]; [subst a; reflexivity|]); destruct H|]).
+    cbn in H. destruct v; destruct H.
+  - eexists. split; [vm_compute; reflexivity | reflexivity].
+Qed.
